@@ -174,7 +174,7 @@ def check(req):
             if fmt == FMT_ODT:
                 mapped = mapped.replace(b("Pictures/" + a["path"]), b(a["url"]))
             else:
-                mapped = mapped.replace(b("assets/" + a["path"]), b(html_esc(a["url"])))
+                mapped = mapped.replace(b("assets/" + a["path"]), b(a["url"]))      # the plain HTML writer prints an image URL as it stands (no entity escaping)
         if fmt == FMT_ODT:
             def office_text(x):
                 i = x.find(b"<office:text>")
